@@ -145,6 +145,8 @@ func propC09() *Prop {
 			js = append(js, threadJob(job("C09g/no-double-spend[2 threads, new client]", "ratelimiter", "VerifC09Concurrent", 2, 0, 2), 2))
 			js = append(js, threadJob(job("C09g/no-double-spend[2 threads, new client, max_tokens 1: more first requests than tokens]", "ratelimiter", "VerifC09Concurrent", 2, 0, 1), int(tierPick(tier, 2, 3))))
 			js = append(js, threadJob(job("C09g/no-double-spend[3 threads, new client, max_tokens 2]", "ratelimiter", "VerifC09Concurrent", 3, 0, 2), int(tierPick(tier, 1, 2))))
+			js = append(js, threadJob(job("C09g/refill-credited-once[2 threads around a refill boundary]", "ratelimiter", "VerifC09ConcurrentRefill", 2), int(tierPick(tier, 2, 3))))
+			js = append(js, threadJob(job("C09g/refill-credited-once[3 threads around a refill boundary]", "ratelimiter", "VerifC09ConcurrentRefill", 3), int(tierPick(tier, 1, 2))))
 			js = append(js, threadJob(job("C09g/no-double-spend[3 threads, existing bucket]", "ratelimiter", "VerifC09Concurrent", 3, 1, 2), int(tierPick(tier, 1, 2))))
 			for _, j := range js {
 				arith(j)
@@ -183,6 +185,8 @@ func propC07() *Prop {
 			js = append(js, lbJob("C07c/wiring[ServeHTTP + breaker + scripted backend]", "VerifC07Wiring", 0))
 			js = append(js, lbJob("C07c/wiring[the backend may send interim 1xx responses before its final status]", "VerifC07Wiring", 1))
 			js = append(js, threadJob(job("C07b/concurrent-admission[2 threads]", "circuitbreaker", "VerifC07Concurrent", 2), 2))
+			js = append(js, threadJob(job("C07b/straggler-admitted-while-closed-completes-after-the-trip[fails]", "circuitbreaker", "VerifC07Straggler", 0), 2))
+			js = append(js, threadJob(job("C07b/straggler-admitted-while-closed-completes-after-the-trip[succeeds]", "circuitbreaker", "VerifC07Straggler", 1), 2))
 			if tier == "thorough" {
 				js = append(js, threadJob(job("C07b/concurrent-admission[3 threads]", "circuitbreaker", "VerifC07Concurrent", 3), 2))
 			}
@@ -204,6 +208,7 @@ func propC08() *Prop {
 			var js []*sym.Job
 			js = append(js, job("C08a/recovery-from-any-invariant-state", "circuitbreaker", "VerifC08Step"))
 			js = append(js, lbJob(fmt.Sprintf("C08b/notifications-never-block[k=%d]", tierPick(tier, 3, 4)), "VerifC08Notify", tierPick(tier, 3, 4)))
+			js = append(js, threadJob(job("C08c/two-concurrent-successful-trials-close-the-breaker[max_requests = success_threshold = 2]", "circuitbreaker", "VerifC08ConcurrentTrials"), 3))
 			js = append(js, lbJob("C08a/every-accepted-configuration-recovers[real validation + real setupCircuitBreaker, thresholds 1..3, max_requests unset..3]", "VerifC08Config"))
 			for k := int64(2); k <= tierPick(tier, 3, 5); k++ {
 				js = append(js, job(fmt.Sprintf("C08a/recovery-after-history[k=%d]", k), "circuitbreaker", "VerifC08Recovery", k))
@@ -256,6 +261,7 @@ func propC02() *Prop {
 			for _, s := range []int64{0, 1, 2} {
 				js = append(js, lbJob(fmt.Sprintf("C02/dispatch-after-history[%s,N=2,k=%d]", strategyNames[s], tierPick(tier, 4, 5)), "VerifC02History", s, tierPick(tier, 4, 5)))
 			}
+			js = append(js, threadJob(lbJob("C02/expiry-check-racing-a-fresh-ejection[the ejection is never lost: the backend stays out of rotation]", "VerifC04Race"), int(tierPick(tier, 2, 3))))
 			for s := int64(0); s < 5; s++ {
 				for n := int64(1); n <= tierPick(tier, 2, 3); n++ {
 					j := lbJob(fmt.Sprintf("C02/request-after-request[%s,N=%d,2 requests, any time and fresh ejections between]", strategyNames[s], n), "VerifC02Sequence", s, n, 2)
@@ -377,6 +383,12 @@ func propC06() *Prop {
 			}
 			add(lbJob("C06c/affinity-across-source-ports[ip_hash,N=5,RemoteAddr forms incl. bracketed IPv6]", "VerifC06RemoteAddrForms", 3, 5))
 			add(lbJob("C06c/affinity-across-source-ports[ip_hash_consistent,N=5,RemoteAddr forms incl. bracketed IPv6]", "VerifC06RemoteAddrForms", 4, 5))
+			for _, st := range []int64{3, 4} {
+				add(lbJob(fmt.Sprintf("C06b/eject-after-traffic[%s,N=3]", strategyNames[st]), "VerifC06EjectAfterTraffic", st, 3))
+				j := lbJob(fmt.Sprintf("C06b/eject-after-traffic[%s,N=70: beyond word-sized bookkeeping]", strategyNames[st]), "VerifC06EjectAfterTraffic", st, 70)
+				add(j)
+				j.LoopBound = 128
+			}
 			js = append(js, threadJob(lbJob("C06c/affinity-under-concurrent-requests[ip_hash,N=3]", "VerifC06AffinityConcurrent", 3, 3), int(tierPick(tier, 2, 3))))
 			js = append(js, threadJob(lbJob("C06c/affinity-under-concurrent-requests[ip_hash_consistent,N=3]", "VerifC06AffinityConcurrent", 4, 3), int(tierPick(tier, 2, 3))))
 			js = append(js, neg(job("C06c/negative-twin", "loadbalancer", "VerifC06NegAffinity")))
@@ -417,6 +429,13 @@ func propC04() *Prop {
 			}
 			for s := int64(0); s < tierPick(tier, 3, 5); s++ {
 				js = append(js, lbJob(fmt.Sprintf("C04e/configured-window[%s, real createHealthChecker, active/passive on/off, threshold 1..3, any unhealthy_timeout]", strategyNames[s]), "VerifC04Config", s))
+			}
+			{
+				n := tierPick(tier, 1100, 5000)
+				j := lbJob(fmt.Sprintf("C04f/ejection-reported-with-%d-backends-known-to-the-metrics-collector", n), "VerifC04ManyBackends", n)
+				j.LoopBound = int(n) + 50
+				j.ValidatePaths = 0
+				js = append(js, j)
 			}
 			js = append(js, threadJob(lbJob("C04c/expiry-check-racing-a-fresh-ejection", "VerifC04Race"), int(tierPick(tier, 2, 3))))
 			js = append(js, threadJob(lbJob("C04d/concurrent-failed-responses-at-the-threshold", "VerifC04ConcurrentFailures"), int(tierPick(tier, 2, 3))))
@@ -531,6 +550,7 @@ func propC03() *Prop {
 				}
 				js = append(js, j)
 			}
+			js = append(js, job("C03/histories[health events incl. in-flight probes, traffic and admin reads: nothing wedges; k=4]", "loadbalancer", "VerifC04History", 0, 4))
 			js = append(js, lbJob("C03/timeouts-never-disabled", "VerifC03Timeouts"))
 			js = append(js, mainJob("C03/full-handler-stack[breaker+limiter+passive]", "VerifStack", 7, 2, 0))
 			return js
@@ -644,6 +664,7 @@ func propC17() *Prop {
 					js = append(js, job(fmt.Sprintf("C17b/custom-auth-gate[every configured key of %d bytes x no key or every presented key of %d bytes]", l, hl), "plugins", "VerifC17AuthGate", l, hl))
 				}
 			}
+			js = append(js, job("C17a/same-configuration-built-twice[order kept, configuration untouched]", "plugins", "VerifC17BuildTwice"))
 			js = append(js, mainJob("C17b/buildHandler-propagates-the-error", "VerifC18Starts", 0))
 			js = append(js, mainJob("C17a/rejection-through-the-real-handler-stack", "VerifStack", 0, 2, 0))
 			js = append(js, neg(job("C17/negative-twin", "plugins", "VerifC17Neg")))
@@ -776,7 +797,7 @@ func propC20() *Prop {
 			js = append(js, threadJob(lbJob("C20a/pool-as-the-balancer-builds-it[real validation + setupWebSocketPool, max_idle 1..3, max_active 0..4, idle_timeout 1..600 s]", "VerifC20Wiring"), 1))
 			js = append(js, lbJob("C20b/hijack[balancer writer]", "VerifC20Hijack"))
 			js = append(js, mainJob("C20b/upgrade-requests-through-the-real-handler-stack[no timer on the tunnel's context, whatever server.timeouts.handler; plugins apply]", "VerifStack", 0, 1, 0))
-			for i, n := range []string{"cleanup || Put", "Get || Get", "Put || Shutdown", "first Put of a new backend || Shutdown"} {
+			for i, n := range []string{"cleanup || Put", "Get || Get", "Put || Shutdown", "first Put of a new backend || Shutdown", "first Put || first Put of one new backend"} {
 				js = append(js, threadJob(lbJob("C20c/concurrent["+n+"]", "VerifC20Concurrent", int64(i)), int(tierPick(tier, 2, 3))))
 			}
 			for k := int64(1); k <= 3; k++ {
@@ -823,7 +844,7 @@ func propC12() *Prop {
 			for i, n := range pairNames {
 				js = append(js, threadJob(lbJob(fmt.Sprintf("C12/pair[%s]", n), "VerifC12Pair", int64(i)), int(tierPick(tier, 2, 3))))
 			}
-			for i, n := range []string{"pool cleanup || Put", "pool Get || Get", "pool Put || Shutdown", "pool first Put of a new backend || Shutdown"} {
+			for i, n := range []string{"pool cleanup || Put", "pool Get || Get", "pool Put || Shutdown", "pool first Put of a new backend || Shutdown", "pool first Put || first Put of one new backend"} {
 				js = append(js, threadJob(lbJob("C12/pair["+n+" (real constructor)]", "VerifC20Concurrent", int64(i)), int(tierPick(tier, 2, 3))))
 			}
 			for i, a := range metricsOps {
@@ -883,7 +904,8 @@ func propC19() *Prop {
 				js = append(js, threadJob(lbJob("C19/Stop-with-probe-in-flight-to-a-hung-backend[N=1,1 tick]", "VerifC19Stop", 3, 1, 1), 2))
 			}
 			js = append(js, threadJob(lbJob("C19/Stop-racing-Stop", "VerifC19Stop", 1, 1, 0), int(tierPick(tier, 2, 3))))
-			for i, n := range []string{"cleanup || Put", "Get || Get", "Put || Shutdown", "first Put of a new backend || Shutdown"} {
+			js = append(js, threadJob(lbJob("C19/Stop-with-active-checks-disabled[the pool is still shut down]", "VerifC19Stop", 5, 1, 0), 1))
+			for i, n := range []string{"cleanup || Put", "Get || Get", "Put || Shutdown", "first Put of a new backend || Shutdown", "first Put || first Put of one new backend"} {
 				js = append(js, threadJob(lbJob("C19/pool["+n+"; afterwards Shutdown has closed every connection the pool accepted]", "VerifC20Concurrent", int64(i)), int(tierPick(tier, 2, 3))))
 			}
 			js = append(js, threadJob(lbJob("C19/Stop-then-late-tick-then-Stop[N=2]", "VerifC19Stop", 2, 2, 0), 1))
